@@ -181,7 +181,10 @@ class SMTwist(SMUserList):
             >>> S = Twist3([1,2,3,4,5,6])
             >>> S.unit()
         """
-        return Twist3(base.unitvec(self.S))
+        if self.N == 2:
+            return Twist2(base.unittwist2(self.S))
+        else:
+            return Twist3(base.unittwist(self.S))
 
     def inv(self):
         """
@@ -1372,21 +1375,6 @@ class Twist2(SMTwist):
             return SE2(base.trexp2(self.S * theta))
         else:
             return SE2([base.trexp2(self.S * t) for t in theta])
-
-    @property
-    def unit(self):
-        """
-        Unit twist
-
-        - ``S.unit()`` is a Twist3 object representing a unit twist aligned with the
-        Twist ``S``.
-        """
-        if base.iszerovec(self.w):
-            # rotational twist
-            return Twist2(self.S / base.norm(S.w))
-        else:
-            # prismatic twist
-            return Twist2(base.unitvec(self.v), [0, 0, 0])
 
     @property
     def ad(self):
